@@ -55,18 +55,21 @@ Record state := mkstate {
   yaml_lineno : N;
   yaml_indent : str;
   st : pstate;
-  version : N }.
+  version : N;
+  seen_tests : list N }.   (* fix C18-numbering-undetected: the set of numbers seen *)
 
-Definition init : state := mkstate false false None 0 0 0 0 0 [] Main 12.
+Definition init : state := mkstate false false None 0 0 0 0 0 [] Main 12 [].
 
-Definition set_late s v := mkstate v (bailed_out s) (cur_plan s) (lineno s) (num_tests s) (last_test s) (highest_test s) (yaml_lineno s) (yaml_indent s) (st s) (version s).
-Definition set_bailed s v := mkstate (found_late_test s) v (cur_plan s) (lineno s) (num_tests s) (last_test s) (highest_test s) (yaml_lineno s) (yaml_indent s) (st s) (version s).
-Definition set_plan s v := mkstate (found_late_test s) (bailed_out s) v (lineno s) (num_tests s) (last_test s) (highest_test s) (yaml_lineno s) (yaml_indent s) (st s) (version s).
-Definition set_lineno s v := mkstate (found_late_test s) (bailed_out s) (cur_plan s) v (num_tests s) (last_test s) (highest_test s) (yaml_lineno s) (yaml_indent s) (st s) (version s).
-Definition set_counts s n l h := mkstate (found_late_test s) (bailed_out s) (cur_plan s) (lineno s) n l h (yaml_lineno s) (yaml_indent s) (st s) (version s).
-Definition set_yaml s ln ind := mkstate (found_late_test s) (bailed_out s) (cur_plan s) (lineno s) (num_tests s) (last_test s) (highest_test s) ln ind Yaml (version s).
-Definition set_st s v := mkstate (found_late_test s) (bailed_out s) (cur_plan s) (lineno s) (num_tests s) (last_test s) (highest_test s) (yaml_lineno s) (yaml_indent s) v (version s).
-Definition set_version s v := mkstate (found_late_test s) (bailed_out s) (cur_plan s) (lineno s) (num_tests s) (last_test s) (highest_test s) (yaml_lineno s) (yaml_indent s) (st s) v.
+Definition set_late s v := mkstate v (bailed_out s) (cur_plan s) (lineno s) (num_tests s) (last_test s) (highest_test s) (yaml_lineno s) (yaml_indent s) (st s) (version s) (seen_tests s).
+Definition set_bailed s v := mkstate (found_late_test s) v (cur_plan s) (lineno s) (num_tests s) (last_test s) (highest_test s) (yaml_lineno s) (yaml_indent s) (st s) (version s) (seen_tests s).
+Definition set_plan s v := mkstate (found_late_test s) (bailed_out s) v (lineno s) (num_tests s) (last_test s) (highest_test s) (yaml_lineno s) (yaml_indent s) (st s) (version s) (seen_tests s).
+Definition set_lineno s v := mkstate (found_late_test s) (bailed_out s) (cur_plan s) v (num_tests s) (last_test s) (highest_test s) (yaml_lineno s) (yaml_indent s) (st s) (version s) (seen_tests s).
+Definition set_counts s n l h sn := mkstate (found_late_test s) (bailed_out s) (cur_plan s) (lineno s) n l h (yaml_lineno s) (yaml_indent s) (st s) (version s) sn.
+(* set.add *)
+Definition add_seen (n : N) (l : list N) : list N := if memb n l then l else n :: l.
+Definition set_yaml s ln ind := mkstate (found_late_test s) (bailed_out s) (cur_plan s) (lineno s) (num_tests s) (last_test s) (highest_test s) ln ind Yaml (version s) (seen_tests s).
+Definition set_st s v := mkstate (found_late_test s) (bailed_out s) (cur_plan s) (lineno s) (num_tests s) (last_test s) (highest_test s) (yaml_lineno s) (yaml_indent s) v (version s) (seen_tests s).
+Definition set_version s v := mkstate (found_late_test s) (bailed_out s) (cur_plan s) (lineno s) (num_tests s) (last_test s) (highest_test s) (yaml_lineno s) (yaml_indent s) (st s) v (seen_tests s).
 
 (* str.upper() — only 'startswith("SKIP")' and '== "TODO"' are ever observed, and
    the first four characters of a directive are ASCII letters (regex), so the
@@ -138,7 +141,7 @@ Definition main_line (s : state) (line0 : str) : result (state * list event) :=
               | Some ds => py_int ds
               end) (fun lt =>
         let h := N.max (highest_test s) lt in                      (* :438 *)
-        let s := set_counts s n lt h in
+        let s := set_counts s n lt h (add_seen lt (seen_tests s)) in
         let ev2 :=
           match cur_plan s with                                    (* :439-440 *)
           | Some p => if p_num p <? lt then [EError KExceeds] else []
@@ -173,16 +176,24 @@ Definition main_line (s : state) (line0 : str) : result (state * list event) :=
     | LUnknown => Ok (s, [EUnknown line (lineno s)])               (* :484 *)
     end.
 
+(* the end-of-stream numbering check (with the fix C18-numbering-undetected): the numbers must be
+   exactly 1..num_tests in any order, i.e. highest == count, as many distinct numbers as tests, no 0 *)
+Definition numbering_bad (s : state) : bool :=
+  negb (highest_test s =? num_tests s) ||
+  negb (N.of_nat (length (seen_tests s)) =? num_tests s) || memb 0 (seen_tests s).
+Definition numbering_kind (s : state) : ekind :=
+  if (highest_test s <? num_tests s) || negb (N.of_nat (length (seen_tests s)) =? num_tests s)
+  then KDup else KMissing.
+
 (* mtest.py:486-502: parse_line(None) *)
 Definition eof (s : state) : result (list event) :=
   let ev1 := match st s with Yaml => [EError KYaml] | _ => [] end in      (* :487-488 *)
   if bailed_out s then Ok ev1                                             (* :490-491 *)
   else
-    let numbering :=                                                      (* :500-504 *)
-      if negb (highest_test s =? num_tests s) then
+    let numbering :=                                                      (* :500-504, as fixed *)
+      if numbering_bad s then
         (* the message is an f-string that formats self.highest_test *)
-        if py_str_ok (highest_test s) then
-          Ok (ev1 ++ [EError (if highest_test s <? num_tests s then KDup else KMissing)])
+        if py_str_ok (highest_test s) then Ok (ev1 ++ [EError (numbering_kind s)])
         else PyErr ValueError
       else Ok ev1 in
     match cur_plan s with
